@@ -135,16 +135,18 @@ def _(rng, dtype, layout, backend):
 @case("convolution_2d")
 def _(rng, dtype, layout, backend):
     from xrspatial.convolution import convolution_2d
-    r = _r(rng, dtype, layout, backend, shape=(rng.randint(4, 6), rng.randint(4, 7)))
-    k = np.array([[0., 1., 0.5], [1., 2., 0.], [0., 1., 1.]]) if rng.random() < 0.5 else np.ones((1, 3))
+    r = _r(rng, dtype, layout, backend, shape=(rng.randint(4, 8), rng.randint(4, 8)))
+    k = rng.choice([np.array([[0., 1., 0.5], [1., 2., 0.], [0., 1., 1.]]), np.ones((1, 3)), np.ones((3, 1)), np.ones((5, 3)),
+                    np.arange(15.).reshape(3, 5)])
     return convolution_2d, (r, k), {}, [r]
 
 
 @case("focal_apply")
 def _(rng, dtype, layout, backend):
     from xrspatial import focal
-    r = _r(rng, dtype, layout, backend)
-    k = np.array([[0., 1., 0.], [1., 1., 0.], [0., 1., 1.]]) if rng.random() < 0.5 else np.ones((3, 1))
+    r = _r(rng, dtype, layout, backend, shape=(rng.randint(3, 8), rng.randint(3, 8)))
+    k = rng.choice([np.array([[0., 1., 0.], [1., 1., 0.], [0., 1., 1.]]), np.ones((3, 1)), np.ones((5, 5)), np.ones((1, 5)),
+                    np.array([[1., 0., 0., 1., 1.]] * 3)])
     return focal.apply, (r, k), dict(func=rng.choice([focal._calc_mean, focal._calc_max, focal._calc_sum])), [r]
 
 
@@ -202,8 +204,13 @@ def _(rng, dtype, layout, backend):
 @case("generate_terrain", dtypes=["float32", "float64"], shape_preserving=False)
 def _(rng, dtype, layout, backend):
     from xrspatial import generate_terrain
-    r = _r(rng, dtype, layout, backend, nan=False)
-    return generate_terrain, (r,), dict(seed=rng.randint(0, 5)), [r]
+    r = _r(rng, dtype, layout, backend, nan=False, shape=rng.choice([(4, 5), (4, 5), (3, 6)]))
+    kw = dict(seed=rng.randint(0, 5))
+    if rng.random() < 0.6:
+        # a tile of a larger extent (the tiling use-case): same shape, different window
+        x0, y0 = rng.choice([0, 250]), rng.choice([0, 250])
+        kw.update(x_range=(x0, x0 + 250), y_range=(y0, y0 + 250), full_extent=(0, 0, 500, 500))
+    return generate_terrain, (r,), kw, [r]
 
 
 def _prox(fname):
